@@ -10,13 +10,20 @@ LEXICAL-mode reference: the same requests answered by the model in `lookup=lexic
 which the real runtime differs from the lexical reference is a failing input. Implementation-level oracle
 (no model): every binding annotation points to a local of that name; bound callees have that name/arity.
 The decidable hypothesis of the dynamic theorem (`Eval.WellScoped`, driver request `ws`) is evaluated on the
-real resolver's annotated AST of every accepted program of the run stream; a program outside it is reported."""
+real resolver's annotated AST of every accepted program of the run stream; a program outside it is reported.
+When only the static TIE is broken (resolver model and real resolver disagree, no program violating the static
+rules found), the dynamic half is run all the same: it is the search for a concrete program on which the property
+itself fails (its scoping stream holds the shapes that need a binding to go wrong at run time: one string with the
+same placeholder several times read in a function called under a same-named variable, same-named functions ...)."""
 import os
 
 import resolvelib
 import runlib
 from common import Check, DRIVER, LEAN, sh
 
+# corpus/run plus the hand-written C04 programs (repeated placeholders under same-named variables) and the C06 ones
+# (hoisted functions defined in dead code: visible throughout their block all the same)
+CORPUS_DIRS = ("C04", "C06")
 STATIC = "NaijaVerif.Props.C04Static"
 DYNAMIC = "NaijaVerif.Props.C04"
 
@@ -72,11 +79,44 @@ def run(ck: Check):
         ck.report_violation({"kind": "impl-vs-oracle", "family": "resolve", "what": f["what"][:500],
                              "requests": [f["request"]], "program": resolvelib.src_of(f["request"])})
         return ck.finish()
-    if any(d["family"] == "resolve" for d in ck.disagreements) or ck.broken:
+    static_broken = any(d["family"] == "resolve" for d in ck.disagreements) or bool(ck.broken)
+    if static_broken and out["failures"]:
+        # a program on which a static rule / oracle fails on the implementation: shrink and report it
         resolvelib.resolve_search(ck, out)
         return ck.finish()
     # --- dynamic: the real runtime vs the model (dynamic mode), and vs the lexical reference
-    streams = runlib.run_streams(ck, ck.tier, kinds=("corpus", "main"), bias="scoping", n_main=2500 if quick else 80000)
+    streams = dynamic_half(ck, quick)
+    if static_broken:
+        # only the static tie is broken: a program on which the real runtime leaves the lexical reference is the
+        # failing input; without one, the larger static search and the tie-broken report as before
+        if not any(not nf for (_p, nf) in ck.violations):
+            resolvelib.resolve_search(ck, out)
+        return ck.finish()
+    if ck.tier == "thorough":
+        ck.leanchecker(mods)
+    if ck.is_broken() and not ck.violations:
+        rep = runlib.report_disagreements(ck, "real runtime and evaluator model (dynamic mode) disagree", streams)
+        if rep is not None:
+            ck.report_violation(rep, no_input_found=True)
+        else:
+            ck.report_violation({"kind": "tie-broken", "broken": ck.broken[:10], "requests": []}, no_input_found=True)
+    return ck.finish()
+
+
+def lexical_case(ck, src):
+    """(request, implementation answer, answer of the lexical reference) for one program text."""
+    req, a, _b, _f = runlib.one_case(ck, src, guard=True)
+    if not req.startswith("run ") or a == runlib.UNBOUNDED:
+        return req, a, a
+    ml = model_lines([lexical(req)])
+    return req, a, (ml[0] if ml else "?")
+
+
+def dynamic_half(ck, quick):
+    """The run stream (corpus + scoping-biased programs) against the model in dynamic mode, against the lexical
+    reference and against the hypothesis of the dynamic theorem; reports what differs. Returns the streams."""
+    streams = runlib.run_streams(ck, ck.tier, kinds=("corpus", "main"), bias="scoping", n_main=2500 if quick else 80000,
+                                 corpus_dirs=CORPUS_DIRS)
     lex_diff = []
     not_ws = []
     for kind, s in streams.items():
@@ -96,8 +136,22 @@ def run(ck: Check):
     ck.count("lexical_reference_cases", sum(len(s["requests"]) for s in streams.values()))
     ck.count("lexical_reference_differences", len(lex_diff))
     known = 0
-    for (r, a, m) in sorted(lex_diff, key=lambda x: len(x[0]))[:10]:
+    seen_small = set()
+    for k, (r, a, m) in enumerate(sorted(lex_diff, key=lambda x: len(x[0]))[:10]):
         src = runlib.src_of(r)
+        if k < 3 and len(src) < 6000:
+            # statement-deletion shrinking of the smallest ones, keeping "accepted and differs from the reference"
+            def still(s):
+                q, x, y = lexical_case(ck, s)
+                return q.startswith("run ") and x != y
+
+            small = runlib.shrink_program(ck, src, still)
+            q, x, y = lexical_case(ck, small)
+            if q.startswith("run ") and x != y:
+                src, r, a, m = small, q, x, y
+        if src in seen_small:
+            continue
+        seen_small.add(src)
         # signature of the listed finding D-04 (recursive variant): the lexical reference reports a use before
         # declaration while the real runtime silently reads another activation's variable
         sig = None
@@ -117,15 +171,7 @@ def run(ck: Check):
         ck.report_violation({"kind": "hypothesis-not-met", "family": "run", "what": "the real resolver's annotations of "
                              "this accepted program are not WellScoped (hypothesis of Props/C04.lean c04_dynamic): the "
                              "dynamic theorem does not cover it", "program": runlib.src_of(r), "requests": [r]})
-    if ck.tier == "thorough":
-        ck.leanchecker(mods)
-    if ck.is_broken() and not ck.violations:
-        rep = runlib.report_disagreements(ck, "real runtime and evaluator model (dynamic mode) disagree", streams)
-        if rep is not None:
-            ck.report_violation(rep, no_input_found=True)
-        else:
-            ck.report_violation({"kind": "tie-broken", "broken": ck.broken[:10], "requests": []}, no_input_found=True)
-    return ck.finish()
+    return streams
 
 
 def replay(ck, data):
